@@ -318,6 +318,8 @@ def run(rep, facts, tier):
 
     # ------------------------------------------------------------ R14.6 length functions vs writers
     rule_14_6(rep, fx)
+    rule_14_7(rep, fx)
+    rule_14_8(rep, fx)
     if tier == 'thorough' and 'security' in facts:
         default_types = set(strip_generics(b.impl_self or '') for b in fx.bodies if b.name == 'len_serialized' and b.impl_self)
         rule_14_6(rep, facts['security'], pre='security:', skip=default_types)
@@ -417,3 +419,168 @@ def rule_14_6(rep, fx, pre='', skip=()):
                         viol.append('%s changes the length of NumberSet.bitmap (%s)' % (b.key, callee_res(t).rsplit('::', 1)[-1]))
     rep.check(not viol and n_ctor >= 2, 'R14.6', 'NumberSet/bitmap-length-invariant', 'bitmap.len() == (num_bits + 31) / 32 in all %d constructions, never resized afterwards' % n_ctor,
               'the NumberSet invariant bitmap.len() == (num_bits + 31) / 32 can be broken (%s): write_to then emits fewer words than len_serialized() counts' % '; '.join(viol[:3]), '')
+
+
+def rule_14_7(rep, fx):
+    """octetsToInlineQos is a literal in Data::write_to / DataFrag::write_to; it must equal the bytes written between that field and the inline QoS."""
+    from rdv.sizes import Sizes, Unsupported
+    from rdv.core import Origins, callee_res, strip_generics
+    rep.rule('R14.7', 'octetsToInlineQos: the literal written as the second 16-bit field of DATA / DATAFRAG equals the number of bytes written between that field and the inline QoS '
+                      '(the fixed-size fields that follow it), so a receiver that seeks by it lands on the parameter list')
+    S = Sizes(fx)
+    for ty in ('messages::submessages::data::Data', 'messages::submessages::data_frag::DataFrag'):
+        wb = S.writable_body(ty)
+        if wb is None:
+            raise CheckBroken('%s::write_to not found' % ty)
+        rep.analysed(wb)
+        og = Origins(wb, summaries=False)
+        # the unconditional prefix: follow the entry block along the Ok continuation of each `?` until the first switch that is not error propagation
+        seq = []
+        bb = 0
+        seen = set()
+        while bb not in seen:
+            seen.add(bb)
+            t = wb.blocks[bb]['term']
+            if t['t'] == 'call':
+                d = strip_generics(t['f'].get('def') or '')
+                if d.startswith('speedy::Writer::'):
+                    try:
+                        c = S.contribution(wb, og, bb, t, {1: ('param', 1)})
+                    except Unsupported:
+                        c = None
+                    lit = None
+                    if d.endswith('write_u16') and t['args'][1].get('o') == 'const':
+                        lit = int(t['args'][1]['k']['v'])
+                    seq.append((d.rsplit('::', 1)[-1], c, lit))
+                bb = t.get('target')
+                if bb is None:
+                    break
+                continue
+            if t['t'] == 'switch':
+                # `?` lowers to branch(): Continue edge = arm 0
+                cont = [a[1] for a in t['arms'] if a[0] == 0]
+                prev_call = [x for x in seq]
+                # stop at a switch that does not test a Try::branch result
+                st_discr = [st for st in wb.blocks[bb]['st'] if st['s'] == 'assign' and st['rv']['r'] == 'discr']
+                is_try = bool(st_discr) and 'ControlFlow' in (st_discr[-1]['rv'].get('ty') or '')
+                if not is_try or not cont:
+                    break
+                bb = cont[0]
+                continue
+            if t['t'] in ('goto', 'drop', 'assert'):
+                bb = t['target']
+                continue
+            break
+        short = ty.rsplit('::', 1)[-1]
+        ok = False
+        why = 'prefix %s' % [(n, l) for n, _c, l in seq][:6]
+        if len(seq) >= 3 and seq[0][0] == 'write_u16' and seq[1][0] == 'write_u16' and seq[1][2] is not None:
+            total = 0
+            for n, c, l in seq[2:]:
+                if c is None or any(m != () for m in c):
+                    break
+                total += c.get((), 0)
+            ok = total == seq[1][2]
+            why = 'literal %d, fixed fields after it %d bytes' % (seq[1][2], total)
+        rep.check(ok, 'R14.7', '%s/octets-to-inline-qos' % short, why,
+                  '%s::write_to writes octetsToInlineQos = a literal that is not the size of the fields between it and the inline QoS (%s)' % (short, why), wb.where())
+
+
+def writer_prefix(S, wb):
+    """Unconditional prefix of a write_to: [(op, wire type, field name or literal, size poly)] in execution order (Ok continuation of each `?`)."""
+    from rdv.sizes import Unsupported
+    from rdv.core import Origins, strip_generics
+    og = Origins(wb, summaries=False)
+    seq = []
+    bb = 0
+    seen = set()
+    while bb is not None and bb not in seen:
+        seen.add(bb)
+        t = wb.blocks[bb]['term']
+        if t['t'] == 'call':
+            d = strip_generics(t['f'].get('def') or '')
+            if d.startswith('speedy::Writer::'):
+                op = d.rsplit('::', 1)[-1]
+                try:
+                    c = S.contribution(wb, og, bb, t, {1: ('param', 1)})
+                except Unsupported:
+                    c = None
+                a = t['args'][1] if len(t['args']) > 1 else None
+                wty, what = None, None
+                if a is not None and a.get('o') == 'const':
+                    what = a['k'].get('v')
+                    wty = a['k'].get('ty')
+                elif a is not None:
+                    wty = wb.locals[a['pl']['l']].replace('&', '').replace("'_ ", '').strip()
+                    tm = og.of_operand(a, bb, 'term')
+                    if tm[0] == 'field' and tm[2] == ('param', 1):
+                        what = tm[1]
+                if op.startswith('write_') and op[6:] in ('u8', 'u16', 'u32', 'u64', 'i8', 'i16', 'i32', 'i64'):
+                    wty = op[6:]
+                seq.append((op, wty, what, c))
+            bb = t.get('target')
+            continue
+        if t['t'] == 'switch':
+            cont = [a[1] for a in t['arms'] if a[0] == 0]
+            st_discr = [st for st in wb.blocks[bb]['st'] if st['s'] == 'assign' and st['rv']['r'] == 'discr']
+            if not (st_discr and 'ControlFlow' in (st_discr[-1]['rv'].get('ty') or '')) or not cont:
+                break
+            bb = cont[0]
+            continue
+        if t['t'] in ('goto', 'drop', 'assert'):
+            bb = t['target']
+            continue
+        break
+    return seq
+
+
+def rule_14_8(rep, fx):
+    """The cursor parsers of DATA / DATAFRAG mirror the writers: same typed fields in the same order into the same struct fields, same header-size constant."""
+    from rdv.sizes import Sizes
+    from rdv.core import Origins, callee_res, strip_generics, term_leaves, switch_edges
+    rep.rule('R14.8', 'DATA / DATAFRAG parser mirrors the writer: the typed reads before the inline QoS are the writer\'s fixed fields in the same order, each parsed value lands in the struct '
+                      'field the writer took it from, the parser\'s fixed-header constant equals the octetsToInlineQos literal the writer emits, and the inline QoS is read as a ParameterList')
+    S = Sizes(fx)
+    for ty, pname in (('messages::submessages::data::Data', 'deserialize_data'), ('messages::submessages::data_frag::DataFrag', 'deserialize')):
+        short = ty.rsplit('::', 1)[-1]
+        wb = S.writable_body(ty)
+        pb = fx.find('%s::%s' % (ty, pname))
+        rep.analysed(wb, pb)
+        wseq = writer_prefix(S, wb)
+        fixed = []
+        for op, wty, what, c in wseq:
+            if c is None or any(m != () for m in c):
+                break
+            fixed.append((strip_generics(wty or '?'), what))
+        og = Origins(pb)
+        reads = [(bb, strip_generics(t['f'].get('self_ty') or '?')) for bb, t in pb.calls() if 'read_from_stream' in callee_res(t)]
+        # execution order: each read dominates the later ones
+        reads.sort(key=lambda r: sum(1 for o in reads if pb.dominates(o[0], r[0])))
+        rtypes = [r[1] for r in reads]
+        ok_seq = len(fixed) >= 5 and rtypes[:len(fixed)] == [f[0] for f in fixed] and rtypes[len(fixed):] == ['messages::submessages::elements::parameter_list::ParameterList']
+        rep.check(ok_seq, 'R14.8', '%s/read-sequence' % short, '%d typed reads = the writer\'s fixed fields, then ParameterList' % len(fixed),
+                  '%s::%s reads %s but %s::write_to writes %s: the parser and the writer disagree on the layout' % (
+                      short, pname, [x.rsplit('::', 1)[-1] for x in rtypes], short, [f[0].rsplit('::', 1)[-1] for f in fixed]), pb.where())
+        # field mapping
+        bad = []
+        for bb, si, st in pb.statements():
+            if st['s'] == 'assign' and st['rv']['r'] == 'agg' and strip_generics(str(st['rv'].get('adt'))) == ty:
+                for f, o in zip(st['rv']['fields'], st['rv']['ops']):
+                    tm = og.of_operand(o, bb, si)
+                    src = [x[3] for x in term_leaves(tm) if x[0] == 'call' and 'read_from_stream' in x[1]]
+                    idx = [i for i, r in enumerate(reads) if src and r[0] == src[0]]
+                    if f in ('inline_qos', 'serialized_payload'):
+                        continue
+                    if len(src) != 1 or not idx or idx[0] >= len(fixed) or fixed[idx[0]][1] != f:
+                        bad.append('%s <- read #%s (writer writes %s there)' % (f, idx[0] + 1 if idx else '?', fixed[idx[0]][1] if idx and idx[0] < len(fixed) else '?'))
+        rep.check(not bad, 'R14.8', '%s/field-mapping' % short, 'each parsed value goes to the field the writer serialised at that position',
+                  '%s::%s puts parsed values into other fields than the writer took them from: %s' % (short, pname, '; '.join(bad[:3])), pb.where())
+        # header-size constant: the comparison octets_to_inline_qos < K in the parser
+        lit = wseq[1][2] if len(wseq) > 1 else None
+        ks = set()
+        for s_, t_, cond, lab in switch_edges(pb, fx, og):
+            if cond[0] == 'bin' and cond[1] in ('Lt', 'Gt', 'Le', 'Ge') and cond[3][0] == 'const' and cond[3][1] == 'int' and \
+                    any(x[0] == 'call' and 'read_from_stream' in x[1] and x[3] == reads[1][0] for x in term_leaves(cond[2])):
+                ks.add(int(cond[3][2]))
+        rep.check(ks == {lit} and lit is not None, 'R14.8', '%s/header-constant' % short, 'parser constant %s = writer literal %s' % (sorted(ks), lit),
+                  '%s::%s compares octetsToInlineQos with %s but the writer emits %s' % (short, pname, sorted(ks), lit), pb.where())
